@@ -22,11 +22,10 @@ Theorem C02_oscar_single :
 Proof. exact load_single. Qed.
 Print Assumptions C02_oscar_single.
 
-(* for ANY file: events=k behaves as events=(k,k) *)
+(* for ANY file (well-formed or not): events=k behaves exactly as events=(k,k) *)
 Theorem C02_single_is_range :
-  forall tok_float tok_int pdg_valid file k r, (0 <= k)%Z ->
-  load tok_float tok_int pdg_valid None file (SelRange k k) = Ok r -> l_counts r <> [] ->
-  load tok_float tok_int pdg_valid None file (SelOne k) = Ok r.
+  forall tok_float tok_int pdg_valid file k, (0 <= k)%Z ->
+  load tok_float tok_int pdg_valid None file (SelOne k) = load tok_float tok_int pdg_valid None file (SelRange k k).
 Proof. exact load_single_is_range. Qed.
 Print Assumptions C02_single_is_range.
 
